@@ -264,7 +264,7 @@ pub fn run(ctx: &Ctx) -> Report {
         }
     });
     rep.merge(r);
-    if !ctx.miri && ctx.only.is_none() {
+    if ctx.strict() {
         rep.require("accepted_exact", 10_000);
         rep.require("refused_err", 1000);
         rep.require("must_accept_obligations_met", 10_000);
